@@ -114,15 +114,16 @@ func (l *link) setCut(cut bool) {
 
 // Node is one cluster member.
 type Node struct {
-	ID       int
-	Dir      string
-	Port     int // client port
-	RaftPort int
-	Srv      *procs.Server
-	Env      []string
-	Race     bool
-	Join     bool
-	peers    string
+	ID          int
+	Dir         string
+	Port        int // client port
+	RaftPort    int
+	Srv         *procs.Server
+	Env         []string
+	Race        bool
+	Join        bool
+	peers       string
+	bindRetries int32
 }
 
 // Addr is the client address.
@@ -130,15 +131,25 @@ func (n *Node) Addr() string { return fmt.Sprintf("127.0.0.1:%d", n.Port) }
 
 // Cluster is a set of nodes plus the forwarder mesh.
 type Cluster struct {
-	Dir   string
-	Nodes []*Node
-	links map[[2]int]*link
-	Env   []string
-	Race  bool
+	Founders int // nodes 1..Founders form the initial configuration
+	Dir      string
+	Nodes    []*Node
+	links    map[[2]int]*link
+	Env      []string
+	Race     bool
 }
 
 // New lays out an n-node cluster under dir (nothing is started yet).
 func New(dir string, n int, race bool, env []string) (*Cluster, error) {
+	return NewSpare(dir, n, 0, race, env)
+}
+
+// NewSpare lays out n founding members plus `spare` nodes that are not part of the initial configuration: a spare
+// node knows every peer, starts with JoinCluster and becomes a member only through a membership change (its URL for
+// that change is JoinURL). Founders reach it through one shared forwarder (link 0 -> id).
+func NewSpare(dir string, n, spare int, race bool, env []string) (*Cluster, error) {
+	founders := n
+	n += spare
 	// snapshots are C08's subject: unless the caller sets a threshold, it is out of reach for the run
 	hasSnap := false
 	for _, e := range env {
@@ -149,7 +160,7 @@ func New(dir string, n int, race bool, env []string) (*Cluster, error) {
 	if !hasSnap {
 		env = append(append([]string{}, env...), "VERIF_SNAPCOUNT=1000000000")
 	}
-	c := &Cluster{Dir: dir, links: map[[2]int]*link{}, Env: env, Race: race}
+	c := &Cluster{Dir: dir, links: map[[2]int]*link{}, Env: env, Race: race, Founders: founders}
 	ports := procs.FreePorts(2 * n)
 	for i := 1; i <= n; i++ {
 		c.Nodes = append(c.Nodes, &Node{ID: i, Dir: filepath.Join(dir, fmt.Sprintf("node%d", i)), Port: ports[2*(i-1)], RaftPort: ports[2*(i-1)+1], Race: race, Env: env})
@@ -168,9 +179,23 @@ func New(dir string, n int, race bool, env []string) (*Cluster, error) {
 			go l.serve()
 		}
 	}
+	for id := founders + 1; id <= n; id++ {
+		ln, err := net.Listen("tcp", "127.0.0.1:0")
+		if err != nil {
+			return nil, err
+		}
+		l := &link{from: 0, to: id, ln: ln, target: fmt.Sprintf("127.0.0.1:%d", c.Nodes[id-1].RaftPort), conns: map[net.Conn]bool{}}
+		c.links[[2]int{0, id}] = l
+		go l.serve()
+		c.Nodes[id-1].Join = true
+	}
 	for _, nd := range c.Nodes {
 		var urls []string
-		for j := 1; j <= n; j++ {
+		upto := n
+		if nd.ID <= founders {
+			upto = founders
+		}
+		for j := 1; j <= upto; j++ {
 			if j == nd.ID {
 				urls = append(urls, fmt.Sprintf("http://127.0.0.1:%d", nd.RaftPort))
 			} else {
@@ -182,23 +207,58 @@ func New(dir string, n int, race bool, env []string) (*Cluster, error) {
 	return c, nil
 }
 
+// JoinURL is the peer URL under which the founders reach spare node id.
+func (c *Cluster) JoinURL(id int) string {
+	return fmt.Sprintf("http://127.0.0.1:%d", c.links[[2]int{0, id}].ln.Addr().(*net.TCPAddr).Port)
+}
+
 // StartNode starts (or restarts) node id in its own working directory.
 func (c *Cluster) StartNode(id int) error {
 	nd := c.Nodes[id-1]
+	// the ports of a node that was just killed can be refused for an instant; a node whose raft listener cannot bind
+	// ends itself (log.Fatalf), which says nothing about the node
+	for k := 0; k < 400; k++ {
+		busy := false
+		for _, port := range []int{nd.Port, nd.RaftPort} {
+			if l, err := net.Listen("tcp", fmt.Sprintf("127.0.0.1:%d", port)); err != nil {
+				busy = true
+			} else {
+				l.Close()
+			}
+		}
+		if !busy {
+			break
+		}
+		time.Sleep(5 * time.Millisecond)
+	}
 	srv, err := procs.Start(procs.Opts{Dir: nd.Dir, Port: nd.Port, ShardNum: 16, Databases: 1, Race: nd.Race, Env: nd.Env, Cluster: true, NodeID: nd.ID,
 		PeerAddrs: nd.peers, RaftAddr: fmt.Sprintf("http://127.0.0.1:%d", nd.RaftPort), JoinCluster: nd.Join, KeepLog: true})
 	nd.Srv = srv
+	if err == nil {
+		// watcher: an exit caused by "address already in use" is the environment's doing; start the node again
+		go func(srv *procs.Server) {
+			srv.WaitExit(24 * time.Hour)
+			if nd.Srv == srv && !srv.Killed() && srv.BindError() && atomic.AddInt32(&nd.bindRetries, 1) <= 5 {
+				BindRestarts.Add(1)
+				time.Sleep(100 * time.Millisecond)
+				_ = c.StartNode(id)
+			}
+		}(srv)
+	}
 	return err
 }
+
+// BindRestarts counts nodes started again because a listener could not bind.
+var BindRestarts atomic.Int32
 
 // StartAll starts every node.
 func (c *Cluster) StartAll() error {
 	errs := make(chan error, len(c.Nodes))
-	for _, nd := range c.Nodes {
+	for _, nd := range c.Nodes[:c.Founders] {
 		go func(id int) { errs <- c.StartNode(id) }(nd.ID)
 	}
 	var first error
-	for range c.Nodes {
+	for range c.Nodes[:c.Founders] {
 		if err := <-errs; err != nil && first == nil {
 			first = err
 		}
